@@ -58,9 +58,9 @@ func (c16) Classes() []sim.Class {
 	var cs []sim.Class
 	for _, e := range []string{"interpreter", "compiler"} {
 		cs = append(cs,
-			sim.Class{Name: "history", Engine: e, Quick: 1500, Thorough: 60000},
-			sim.Class{Name: "readdir", Engine: e, Quick: 500, Thorough: 20000},
-			sim.Class{Name: "faults", Engine: e, Quick: 800, Thorough: 30000},
+			sim.Class{Name: "history", Engine: e, Quick: 4000, Thorough: 150000},
+			sim.Class{Name: "readdir", Engine: e, Quick: 1500, Thorough: 50000},
+			sim.Class{Name: "faults", Engine: e, Quick: 2500, Thorough: 80000},
 		)
 	}
 	return cs
@@ -308,6 +308,9 @@ func (s *runState) step(class string) {
 		k = t.Weighted(3, 1, 1, 1, 0, 0, 0, 0, 0, 1, 0, 0, 0, 0, 1, 1, 1, 1, 10)
 	default:
 		k = t.Weighted(8, 4, 5, 5, 3, 3, 3, 2, 3, 3, 2, 2, 2, 1, 3, 2, 2, 3, 3)
+	}
+	if len(s.m.fds) <= 4 && k != 0 && t.Chance(1, 2) {
+		k = 0 // few descriptors open: open something first
 	}
 	if s.faulty {
 		s.e.ctl.arm(t)
